@@ -853,6 +853,7 @@ def run(ctx):
             continue
         seen_v.add(text)
         vjobs.append((len(vjobs), cc, vwork, name, text))
+    hang_confirmed = {}
     for idx, refs, kind, det, msg in core.pmap(run_valid, vjobs, chunksize=8):
         name, text = vjobs[idx][3], vjobs[idx][4]
         ctx.evaluations += 1
@@ -864,12 +865,16 @@ def run(ctx):
         if kind == 'ok':
             continue
         if kind == 'hang':
-            rc2, o2, e2 = core.sh(core.cc1_cmd(plain, os.path.join(vwork, 'again.c'), os.path.join(vwork, 'again.s'), []), timeout=30, cwd=vwork) if False else ('timeout', b'', b'')
+            # re-run protocol: the plain build gets 60 s; after two confirmed hangs of one kind the others are not re-run (each costs a minute)
+            if hang_confirmed.get(name, 0) >= 2:
+                ctx.count('hangs_not_rerun')
+                continue
             open(os.path.join(vwork, 'again.c'), 'w').write(text)
             rc2, o2, e2 = core.sh(core.cc1_cmd(plain, os.path.join(vwork, 'again.c'), os.path.join(vwork, 'again.s'), []), timeout=60, cwd=vwork)
             if rc2 != 'timeout':
                 ctx.count('timeout-not-reproduced')
                 continue
+            hang_confirmed[name] = hang_confirmed.get(name, 0) + 1
             det = name
         key = 'C13|%s|%s' % ('rejects-valid' if kind == 'diag' else kind, det)
         ctx.violation(key, '%s: gcc and clang accept, chibicc: %s %s' % (name, kind, msg[:200]), files={'input.c': text},
